@@ -485,7 +485,7 @@ def run_exporter(ch, tr: Trace) -> None:
 
 WORKLOADS = [
     Workload(
-        name="exporter", run=run_exporter, runs={"quick": 600, "thorough": 60_000}, chunk=20, run_timeout=180.0,
+        name="exporter", run=run_exporter, runs={"quick": 600, "thorough": 30_000}, chunk=20, run_timeout=180.0,
         real=["pp.Exporter (write_vtu, write_pvd, _export_mdg_pvd, per-cell-type grouping, import_from_pvd, import_state_from_vtu)", "meshio vtu writer/reader",
               "pp.TimeManager.write_time_information / load_time_information / set_time_and_dt_from_exported_steps",
               "pp.DataSavingMixin.write_pvd_and_vtu / load_data_from_pvd / load_data_from_vtu (hosted by a minimal object)", "real files on tmpfs"],
@@ -671,7 +671,7 @@ def run_model_level(ch, tr: Trace) -> None:
 
 WORKLOADS.append(
     Workload(
-        name="model", run=run_model_level, runs={"quick": 96, "thorough": 10_000}, chunk=6, run_timeout=400.0,
+        name="model", run=run_model_level, runs={"quick": 96, "thorough": 3_000}, chunk=6, run_timeout=400.0,
         real=["the real SinglePhaseFlow model run: pp.run_time_dependent_model, NewtonSolver, SolutionStrategy.prepare_simulation/reset_state_from_file, DataSavingMixin.save_data_time_step/load_data_from_pvd/load_data_from_vtu, Exporter, TimeManager time I/O, restart through params['restart_options']"],
         stub=["open() interposer (crash at a drawn crossing, torn file)", "fault-injecting overrides of check_convergence/solve_linear_system (failed steps are exported too, as the code does)"],
     )
